@@ -138,6 +138,20 @@ Proof.
   - inversion H; subst; cbn. repeat split; lia.
 Qed.
 
+Lemma top_pend' : forall q i t t' e k, top q i t = (t', e) ->
+  pend1 k t' = 0 /\ cnt_own k e = 0 /\ cnt_any k e = 0 /\ cnt_done k e = 0 /\ st t' <> 3 /\ st t' <> 0.
+Proof.
+  intros q i t t' e k H. apply top_cases in H.
+  destruct H as [(->&->&_)|[(->&->&_)|[(c&->&->&_)|(->&->&_)]]]; cbn; repeat split; try reflexivity; try lia.
+Qed.
+Lemma new_attempt_pend' : forall q i t t' e k, new_attempt q i t = (t', e) ->
+  pend1 k t' = 0 /\ cnt_own k e = 0 /\ cnt_any k e = 0 /\ cnt_done k e = 0 /\ st t' <> 3 /\ st t' <> 0.
+Proof.
+  intros q i t t' e k H. unfold new_attempt in H. destruct (ctxs t =? 0).
+  - eapply top_pend'; exact H.
+  - inversion H; subst; cbn. repeat split; lia.
+Qed.
+
 (* what one returning Pick call does to the ledger *)
 Lemma pick_return_ledger : forall q l nt i t kind a b ns t' e nt' k,
   st t = 2 -> 1 <= nt -> pick_return q l nt i t kind a b ns = (t', e, nt') ->
@@ -254,6 +268,20 @@ Proof.
     apply getth_nth in Hg. destruct Hg as [Hg _]. apply andb_prop in Hc. destruct Hc as [Hs _].
     unfold afinish in H. destruct (afin x) eqn:Ha; inversion H; subst; unfold ledger_ok, putth; cbn;
       rewrite (pendc_upd _ _ _ _ _ Hg); unfold pend1; cbn; rewrite ?Ha, ?Hs; cbn.
+    + repeat split; lia.
+    + destruct (tok x =? 0) eqn:E0; cbn; [repeat split; lia|].
+      destruct (tok x =? k); repeat split; try lia.
+  - (* retried stream-operation failure *)
+    destruct (getth s t) as [x|] eqn:Hg; [|inversion H; subst; apply ledger_refl].
+    match type of H with (if ?c then _ else _) = _ => destruct c eqn:Hc end; [|inversion H; subst; apply ledger_refl].
+    apply getth_nth in Hg. destruct Hg as [Hg _]. apply andb_prop in Hc. destruct Hc as [Hs _].
+    destruct (afinish x 1) as [x1 d] eqn:Ha.
+    match type of H with context [new_attempt _ _ ?y] => destruct (new_attempt (p s) t y) as [x2 e2] eqn:Hn end.
+    inversion H; subst. destruct (new_attempt_pend' _ _ _ _ _ k Hn) as (P0&O0&A0&D0&_).
+    unfold ledger_ok, putth; cbn [ths ntok]. rewrite (pendc_upd _ _ _ _ _ Hg), P0.
+    rewrite cnt_own_app, cnt_any_app, cnt_done_app, O0, A0, D0.
+    unfold afinish in Ha. unfold pend1. rewrite Hs. cbn [andb].
+    destruct (afin x) eqn:Hf; inversion Ha; subst; cbn.
     + repeat split; lia.
     + destruct (tok x =? 0) eqn:E0; cbn; [repeat split; lia|].
       destruct (tok x =? k); repeat split; try lia.
@@ -389,6 +417,18 @@ Proof.
       (split; [split|]; auto); apply Forall_upd; auto;
       unfold th_ok; cbn; repeat split; auto; try lia; try congruence; intros; try discriminate; auto 6.
     all: rewrite orb_false_r in *; auto.
+  - destruct (getth s t) as [x|] eqn:Hx; [|inversion H; subst; exact Hsame].
+    match type of H with (if ?c then _ else _) = _ => destruct c eqn:Hc end; [|inversion H; subst; exact Hsame].
+    apply getth_nth in Hx. destruct Hx as [Hx _]. apply andb_prop in Hc. destruct Hc as [Hs Hc].
+    apply andb_prop in Hc. destruct Hc as [_ Hcf]. apply negb_true_iff in Hcf.
+    pose proof (Forall_nth_error _ _ _ _ _ HF Hx) as (H1&H2&H3&H4&H5&H6&H7).
+    destruct (afinish x 1) as [x1 d] eqn:Ha.
+    match type of H with context [new_attempt _ _ ?y] => destruct (new_attempt (p s) t y) as [x2 e2] eqn:Hn end.
+    inversion H; subst. unfold inv, putth; cbn [ths ntok p]. split; [split|]; auto.
+    apply Forall_upd; auto.
+    unfold afinish in Ha.
+    eapply new_attempt_ok; [| | | |exact Hn]; destruct (afin x); inversion Ha; subst; cbn; auto; try lia;
+      rewrite Hcf; reflexivity.
   - inversion H; subst; exact Hsame.
 Qed.
 
@@ -809,6 +849,18 @@ Proof.
     destruct (afin x); inversion H; subst; unfold putth; cbn [p ths];
       (match goal with |- context [upd _ _ ?y] => destruct (Hupd _ _ y Hx) as [L R] end;
        [apply latest1_not2; cbn; lia | apply ready1_not3; right; exact Hs | auto]).
+  - assert (E : p s = (if closed (p s) then p s else p s)) by (destruct (closed (p s)); reflexivity).
+    destruct (getth s t) as [x|] eqn:Hx; [|inversion H; subst; apply Hid; auto].
+    match type of H with (if ?c then _ else _) = _ => destruct c eqn:Hc end; [|inversion H; subst; apply Hid; auto].
+    apply getth_nth in Hx. destruct Hx as [Hx Ht0]. apply andb_prop in Hc. destruct Hc as [Hs _]. apply Z.eqb_eq in Hs.
+    destruct (afinish x 1) as [x1 d] eqn:Ha.
+    match type of H with context [new_attempt _ _ ?y] => destruct (new_attempt (p s) t y) as [x2 e2] eqn:Hn end.
+    inversion H; subst. unfold putth; cbn [p ths]. split; [exact E|].
+    destruct (Hupd _ _ x2 Hx) as [L R].
+    + rewrite Z.add_0_l, Z2Nat.id by lia. eapply latest1_new_attempt; [exact Hn|].
+      unfold afinish in Ha. destruct (afin x); inversion Ha; subst; reflexivity.
+    + apply ready1_not3. right. exact Hs.
+    + auto.
   - inversion H; subst. apply Hid; [unfold pw_after; destruct (closed (p s')); reflexivity|reflexivity].
 Qed.
 
@@ -897,6 +949,14 @@ Proof.
     destruct (committed x); cbn [andb negb]; [inversion H; reflexivity|].
     unfold afinish in H. destruct (afin x); cbn [andb negb]; [inversion H; reflexivity|].
     destruct (tok x =? 0); inversion H; reflexivity.
+  - destruct (getth s t) as [x|]; [|inversion H; reflexivity].
+    destruct (st x =? 3); cbn [andb]; [|inversion H; reflexivity].
+    destruct (negb (committed x) && negb (csfin x)); cbn [andb]; [|inversion H; reflexivity].
+    destruct (afinish x 1) as [x1 d] eqn:Ha.
+    match type of H with context [new_attempt _ _ ?y] => destruct (new_attempt (p s) t y) as [x2 e2] eqn:Hn end.
+    inversion H; subst. rewrite dones_app, (new_attempt_dones _ _ _ _ _ Hn), app_nil_r.
+    unfold afinish in Ha. destruct (afin x); cbn [andb negb]; [inversion Ha; reflexivity|].
+    destruct (tok x =? 0); inversion Ha; reflexivity.
   - inversion H; reflexivity.
 Qed.
 
@@ -983,6 +1043,11 @@ Proof.
   - destruct (getth s t) as [x|]; [|inversion H; reflexivity].
     match type of H with (if ?c then _ else _) = _ => destruct c end; [|inversion H; reflexivity].
     destruct (afinish x 1) as [x1 dd]. inversion H; subst. unfold putth; cbn. apply upd_length.
+  - destruct (getth s t) as [x|]; [|inversion H; reflexivity].
+    match type of H with (if ?c then _ else _) = _ => destruct c end; [|inversion H; reflexivity].
+    destruct (afinish x 1) as [x1 dd].
+    match type of H with context [new_attempt _ _ ?y] => destruct (new_attempt (p s) t y) as [x2 e2] end.
+    inversion H; subst. unfold putth; cbn. apply upd_length.
   - inversion H; reflexivity.
 Qed.
 
@@ -1192,4 +1257,27 @@ Proof.
     rewrite Hb in W. cbn -[Z.eqb ctx_code] in W. unfold snap, w_st, w_c in W; cbn -[Z.eqb ctx_code] in W.
     apply andb_prop in W. destruct W as [W1 W2]. apply Z.eqb_eq in W1. rewrite W1 in W2. cbn -[ctx_code] in W2.
     apply Z.eqb_eq in W2. auto.
+Qed.
+
+(* C23, "is retried": a stream operation of a created, uncommitted stream fails with a status the
+   retry policy retries.  The attempt being abandoned is finished right then - its Done runs now
+   with an error unless it ran before (or the result carried no Done) - and the RPC goes on to
+   pick for the next attempt (or fails: channel closed / context done).  What happens to the Done
+   of that next pick is the DPick case of [due] again (pick_return does not look at how the
+   attempt came about), and the ledger theorems above cover op lists containing this op. *)
+Theorem retried_attempt_done : forall s t x s' e, reachable s -> getth s t = Some x ->
+  st x = 3 -> committed x = false -> csfin x = false -> dstep s (DRetryFail t) = (s', e) ->
+  dones e = (if afin x || (tok x =? 0) then [] else [tok x; 1]) /\
+  exists x', nth_error (ths s') (Z.to_nat t) = Some x' /\ (st x' = 1 \/ st x' = 2 \/ st x' = 4).
+Proof.
+  intros s t x s' e (cfg&ops&s0&obs&evs&Hi&He) Hx Hs Hc Hf H.
+  destruct (reach_inv _ _ _ _ _ _ Hi He) as [[_ Hnt] _].
+  split.
+  - rewrite (step_dones _ _ _ _ Hnt H). cbn [due]. rewrite Hx, Hs, Hc, Hf. cbn [Z.eqb Pos.eqb andb negb].
+    destruct (afin x); cbn [negb andb orb]; [reflexivity|]. destruct (tok x =? 0); reflexivity.
+  - cbn [dstep] in H. rewrite Hx, Hs, Hc, Hf in H. cbn [Z.eqb Pos.eqb andb negb] in H.
+    destruct (afinish x 1) as [x1 d].
+    match type of H with context [new_attempt _ _ ?y] => destruct (new_attempt (p s) t y) as [x2 e2] eqn:Hn end.
+    inversion H; subst. exists x2. apply getth_nth in Hx. destruct Hx as [Hx _].
+    unfold putth; cbn [ths]. split; [eapply nth_error_upd_eq; eauto|]. eapply new_attempt_st; eauto.
 Qed.
